@@ -51,7 +51,21 @@ func (a *accSM) Update(e sm.Entry) (sm.Result, error) {
 	if len(d) > 2 {
 		d = d[:2]
 	}
-	return sm.Result{Value: a.acc, Data: append([]byte(nil), d...)}, nil
+	d = append([]byte(nil), d...)
+	// the first command byte selects the shape of the result (acc_update in Model/Session.v)
+	if len(e.Cmd) > 0 {
+		switch e.Cmd[0] {
+		case 0xE0:
+			return sm.Result{}, nil // the zero Result
+		case 0xE1:
+			return sm.Result{Value: 0, Data: []byte{}}, nil // Value 0, empty non-nil Data
+		case 0xE2:
+			return sm.Result{Value: a.acc}, nil // Value != 0, nil Data
+		case 0xE3:
+			return sm.Result{Value: 0, Data: d}, nil // Value 0, some Data
+		}
+	}
+	return sm.Result{Value: a.acc, Data: d}, nil
 }
 func (a *accSM) Lookup(interface{}) (interface{}, error) { return a.acc, nil }
 func (a *accSM) SaveSnapshot(w io.Writer, _ sm.ISnapshotFileCollection, _ <-chan struct{}) error {
